@@ -18,6 +18,7 @@ FamCfgs(f) == CASE f = "graph3"   -> GraphFamily(Three)
                 [] f = "flat3"    -> FlatFamily(3)
                 [] f = "raise"    -> RaiseFamily(Three)
                 [] f = "modname"  -> ModNameFamily
+                [] f = "late"     -> LateFamily
                 [] f = "sample"   -> { CfgList[i] : i \in 1..Len(CfgList) }
 ASSUME \A f \in Families : (AssumeAll \/ f = "sample") => \A c \in FamCfgs(f) : CfgOK(c)
 Init == \E f \in Families : InitWith(f, FamCfgs(f))
